@@ -5,6 +5,12 @@ from props import searchprop as SP
 def engine_checks(case, eng):
     out = []
     for r in eng["results"]:
+        # the real cache content must be exactly what the observed writes say (C13_cut_cache_is_a_full_run_cache on the engine): a
+        # write path without an observer call, or an in-place update of an entry, shows up here (seeded change r9C13)
+        if r.get("tt_diff", -1) > 0:
+            out.append({"spec": r.get("spec"), "entries_differing": r["tt_diff"], "example": r.get("tt_diff_example"),
+                        "why": "after the search the cache holds entries that no observed cache write accounts for"})
+            continue
         # (k<K> is not an interruption: no limit is set and only the clock jumps; the run must stay complete)
         if case["group"] in ("cut", "cutx") and "k" not in r.get("spec", "") and r.get("cut", -1) >= 0 and len(r.get("writes", [])) > r["cut"]:
             out.append({"spec": r.get("spec"), "writes_before_cut": r["cut"], "writes_total": len(r["writes"]),
@@ -41,7 +47,7 @@ def run(ctx):
     if r:
         full = {}
         for c, e in zip(r["cases"], r["engine"]):
-            if c["group"] in ("cut-full", "budget-probe", "cutx-probe") and e["results"] and not e["results"][0].get("panic"):
+            if c["group"] in ("cut-full", "budget-probe", "cutx-probe", "cutd-probe") and e["results"] and not e["results"][0].get("panic"):
                 full[(c["group"] != "budget-probe", c["fen"], tuple(c["moves"]), c["depth"])] = [w[:6] for w in e["results"][0]["writes"]]
         npre = nbad = 0
         for c, e in zip(r["cases"], r["engine"]):
